@@ -2,7 +2,7 @@
    Model: Model/Live.v (BetfairExecution.execute_*, _execution_helper, BaseOrderPackage.retry/reset_orders), Model/Retry.v. *)
 From Coq Require Import ZArith List Bool.
 From V Require Import Model.Num Model.Status Model.Live Model.Retry Gen.LiveC Gen.StatusC Proofs.LiveP Proofs.RetryP.
-From V Require Model.Sim Model.SimLoop Proofs.SimPkgP.
+From V Require Model.Sim Model.SimLoop Model.SimGuard Model.SimCases Model.Examples Proofs.SimPkgP Proofs.SimAwaitP.
 Open Scope Z_scope.
 
 (* (1) no stranding - for packages of ANY length and ANY report vector.  `settled s n` = order n is Executable or Execution complete. *)
@@ -43,6 +43,38 @@ Theorem C12_sim_package_settles : forall tb cf now s p m b o,
                 SimLoop.get_order (SimLoop.pk_order p) (SimLoop.mk_orders m') = Some o' /\ SimPkgP.final_status o'.
 Proof. exact SimPkgP.exec_pkg_settles. Qed.
 Print Assumptions C12_sim_package_settles.
+
+(* simulated execution over WHOLE RUNS, every book (removals, starting prices, suspensions, closures included), any script whose order names
+   are used once: in every reachable state that has not aborted, an order whose status says it awaits an answer - Pending, Cancelling, Updating,
+   Replacing - has the package of exactly that request still queued for it (so it is answered at a later update of its market); nothing in the
+   loop other than a strategy's request ever puts an order into such a status.  Once the queue is empty no order awaits anything. *)
+Theorem C12_sim_run_nothing_stranded : forall tb cf n sc es s m o k,
+  SimGuard.initial_b s = true -> SimGuard.keys_ok_b sc n es = true ->
+  let s' := fold_left (SimLoop.step tb cf n sc) es s in
+  SimLoop.s_aborted s' = false -> In m (SimLoop.s_markets s') -> In o (SimLoop.mk_orders m) -> SimAwaitP.awaits (Sim.so_status o) k ->
+  exists p, In p (SimLoop.s_queue s') /\ SimLoop.pk_market p = SimLoop.mk_id m /\ SimLoop.pk_order p = Sim.so_name o /\ SimLoop.pk_kind p = k.
+Proof. exact SimAwaitP.run_nothing_stranded_b. Qed.
+Print Assumptions C12_sim_run_nothing_stranded.
+Theorem C12_sim_quiescent_run_is_settled : forall tb cf n sc es s m o,
+  SimGuard.initial_b s = true -> SimGuard.keys_ok_b sc n es = true ->
+  let s' := fold_left (SimLoop.step tb cf n sc) es s in
+  SimLoop.s_aborted s' = false -> SimLoop.s_queue s' = [] -> In m (SimLoop.s_markets s') -> In o (SimLoop.mk_orders m) ->
+  Sim.so_status o <> SPending /\ Sim.so_status o <> SCancelling /\ Sim.so_status o <> SUpdating /\ Sim.so_status o <> SReplacing.
+Proof. exact SimAwaitP.run_quiescent_is_settled. Qed.
+Print Assumptions C12_sim_quiescent_run_is_settled.
+(* non-vacuity: after the update at which it is requested the order awaits its placement and the package is queued; two updates later it is
+   answered and the queue is empty *)
+Definition c12_bk (pt : Z) : Sim.book :=
+  Examples.xbook pt Sim.MOpen 1 [Examples.xrunner 1 Sim.RActive None [(20000, 300)] [(21000, 500)] []].
+Definition c12_script : SimLoop.script := SimCases.script_of [(0, 1, 0, [SimLoop.APlace 1 1 Back (SimLoop.OLimit 20600 1000 Sim.PLapse false None) None])].
+Definition c12_ev (i pt : Z) : SimLoop.event := {| SimLoop.ev_market := 1; SimLoop.ev_idx := i; SimLoop.ev_book := c12_bk pt |}.
+Definition c12_init : SimLoop.sim := SimCases.sim0 [SimCases.mkmarket 1 Examples.std_static].
+Example C12_sim_run_example :
+  let view s := (map (fun m => map (fun o => (Sim.so_name o, Sim.so_status o)) (SimLoop.mk_orders m)) (SimLoop.s_markets s), map SimLoop.pk_kind (SimLoop.s_queue s)) in
+  SimGuard.initial_b c12_init = true /\ SimGuard.keys_ok_b c12_script 1 [c12_ev 0 1000; c12_ev 1 1200] = true /\
+  view (fold_left (SimLoop.step tb_up Examples.std_cfg 1 c12_script) [c12_ev 0 1000] c12_init) = ([[(1, SPending)]], [SimLoop.KPlace]) /\
+  view (fold_left (SimLoop.step tb_up Examples.std_cfg 1 c12_script) [c12_ev 0 1000; c12_ev 1 1200] c12_init) = ([[(1, SExecutable)]], []).
+Proof. vm_compute. repeat split; reflexivity. Qed.
 
 (* (2) retry budget: 1 + MAX_RETRIES calls at most; answered iff the errors stop within the budget *)
 Theorem C12_retry_budget : forall errors, 0 <= errors ->
